@@ -162,6 +162,37 @@ addr_record(const struct sockaddr_storage *addr, uint16_t *fam, uint16_t *port, 
 		*ip = ntohl(sin->sin_addr.s_addr);
 	}
 }
+/* transport 2 of the datagram check: receiver and two senders bound to paths */
+static int p_snd[2] = { -1, -1 };
+static char p_path_r[sizeof(((struct sockaddr_un *)0)->sun_path)], p_path_s[2][sizeof(((struct sockaddr_un *)0)->sun_path)];
+static uint8_t
+addr_unix_sender(const struct sockaddr_storage *addr) {
+	const struct sockaddr_un *sun = (const struct sockaddr_un *)addr;
+	if (AF_UNIX != addr->ss_family || '\0' == p_path_s[0][0])
+		return (0);
+	if (0 == strncmp(sun->sun_path, p_path_s[0], sizeof(sun->sun_path)))
+		return (1);
+	if (0 == strncmp(sun->sun_path, p_path_s[1], sizeof(sun->sun_path)))
+		return (2);
+	return (3);
+}
+static int
+unix_dgram_bound(const char *path) {
+	struct sockaddr_un sun;
+	int fd = socket(AF_UNIX, SOCK_DGRAM | SOCK_NONBLOCK | SOCK_CLOEXEC, 0);
+
+	if (-1 == fd)
+		return (-1);
+	memset(&sun, 0, sizeof(sun));
+	sun.sun_family = AF_UNIX;
+	strncpy(sun.sun_path, path, sizeof(sun.sun_path) - 1);
+	unlink(path);
+	if (0 != bind(fd, (struct sockaddr *)&sun, sizeof(sun))) {
+		close(fd);
+		return (-1);
+	}
+	return (fd);
+}
 
 static int
 tcp_bound_socket(int type, struct sockaddr_in *sin_ret) {
@@ -344,6 +375,8 @@ pkt_cb(tp_task_p tptask, int error, struct sockaddr_storage *addr, io_buf_p buf,
 	rec.addr_null = (NULL == addr);
 	if (NULL != addr)
 		addr_record(addr, &rec.addr_family, &rec.addr_port, &rec.addr_ip);
+	if (NULL != addr && 2 == s->transport)
+		rec.addr_unix_sender = addr_unix_sender(addr);
 	rec.on_owner = (tpt_get_current() == g_owner);
 	rec.t_us = now_us();
 	if (n < C16P_MAX_CB)
@@ -457,7 +490,7 @@ p_send(uint32_t pat_idx, uint32_t len, int patient) {
 	for (i = 0; i < len; i ++)
 		d[i] = c16p_pattern(pat_idx, i);
 	for (;;) {
-		ssize_t w = send(p_sk[1], d, len, MSG_DONTWAIT | MSG_NOSIGNAL);
+		ssize_t w = send((2 == p_scn->transport) ? p_snd[pat_idx & 1] : p_sk[1], d, len, MSG_DONTWAIT | MSG_NOSIGNAL);
 		if (w == (ssize_t)len)
 			return (0);
 		if (w >= 0)
@@ -491,6 +524,24 @@ c16p_run(const c16p_scn *scn, c16p_out *out) {
 		if (0 != socketpair(AF_UNIX, SOCK_DGRAM | SOCK_NONBLOCK | SOCK_CLOEXEC, 0, p_sk)) {
 			out->setup_rc = errno;
 			goto out_nopool;
+		}
+	} else if (2 == scn->transport) {
+		struct sockaddr_un sun;
+		int k;
+		snprintf(p_path_r, sizeof(p_path_r), "%s/c16p-%d-r.sock", scn->pdir, (int)getpid());
+		snprintf(p_path_s[0], sizeof(p_path_s[0]), "%s/c16p-%d-a", scn->pdir, (int)getpid());
+		snprintf(p_path_s[1], sizeof(p_path_s[1]), "%s/c16p-%d-sender-with-a-longer-name", scn->pdir, (int)getpid());
+		p_sk[0] = unix_dgram_bound(p_path_r);
+		p_snd[0] = unix_dgram_bound(p_path_s[0]);
+		p_snd[1] = unix_dgram_bound(p_path_s[1]);
+		memset(&sun, 0, sizeof(sun));
+		sun.sun_family = AF_UNIX;
+		strncpy(sun.sun_path, p_path_r, sizeof(sun.sun_path) - 1);
+		for (k = 0; k < 2; k ++) {
+			if (-1 == p_sk[0] || -1 == p_snd[k] || 0 != connect(p_snd[k], (struct sockaddr *)&sun, sizeof(sun))) {
+				out->setup_rc = (0 != errno) ? errno : -1;
+				goto out_nopool;
+			}
 		}
 	} else {
 		struct sockaddr_in a0, a1;
@@ -595,6 +646,17 @@ out_nopool:
 	}
 	if (p_sk[1] >= 0)
 		close(p_sk[1]);
+	if (2 == scn->transport) {
+		int k;
+		for (k = 0; k < 2; k ++) {
+			if (p_snd[k] >= 0)
+				close(p_snd[k]);
+			p_snd[k] = -1;
+			unlink(p_path_s[k]);
+		}
+		unlink(p_path_r);
+		p_path_s[0][0] = '\0';
+	}
 	tp_res_get(&out->res);
 	tp_res_cleanup();
 	g_close_unknown_passthrough = 0;
